@@ -25,6 +25,8 @@ CHECKS = {
 
 CHECKS["C17"] = dict(engine="S", text="every catalogue operation, the three selections (symbolic query longitudes in either convention passed as caller-owned numpy buffers), the reader helpers and the stacking helper are executed on symbolic data along every feasible path; deep snapshots of all argument objects (cells as terms, buffers, coordinates, attributes, encodings, dims, names) taken before the call must still describe them afterwards", ref="6/C17")
 
+CHECKS["C18"] = dict(engine="S+X+L", text="all histories up to the bound over {accessor calls, in-place replacement of efth, in-place relabelling of dir with the same / another spacing, unknown-statistic call, reader call, transform call} are executed on one symbolic object (DataArray and Dataset); afterwards every observed statistic must be solver-equal to the one computed on a freshly built object with the same contents and the Dataset accessor must agree with its efth variable; CrossHair checks that AttrDict lookups do not change membership; the static buffers of the C extension are covered by consecutive_calls in C04", ref="6/C18")
+
 NOT_APPLICABLE = {
     "C07": "dask graph construction, rechunking and thread schedules live in dask/xarray internals; no engine here can make chunkings or thread interleavings symbolic (z3 is not thread safe, Engine S pins the synchronous scheduler) - see DESIGN.md section 7",
 }
